@@ -609,11 +609,11 @@ def corrupted_copies(traces):
         if c["evs"][i]["em"][0] != c["evs"][i]["em"][1]:
             out.append((c, "OutputIsPrefixOfPackets"))
     t, i = first(lambda e: len(e["em"]) >= 1)
-    if t is not None:                                            # a packet handed on twice
+    if t is not None:                                            # a packet handed on twice (equal neighbours keep the prefix formula true)
         c = copy.deepcopy(t)
         c["evs"] = c["evs"][:i + 1]
         c["evs"][i]["em"].append(c["evs"][i]["em"][-1])
-        out.append((c, "OutputIsPrefixOfPackets"))
+        out.append((c, "NoEarlyEmission"))
     t, i = first(lambda e: len(e["em"]) >= 1)
     if t is not None:                                            # a packet lost
         c = copy.deepcopy(t)
